@@ -1,6 +1,7 @@
 package values
 
 import (
+	"reflect"
 	"sync"
 
 	"github.com/osteele/liquid/verifhook"
@@ -14,6 +15,10 @@ type drop interface {
 func ToLiquid(value any) any {
 	switch value := value.(type) {
 	case drop:
+		// a nil pointer is nil, also when its type is a Drop: calling a value-receiver ToLiquid through it would panic
+		if rv := reflect.ValueOf(value); rv.Kind() == reflect.Ptr && rv.IsNil() {
+			return nil
+		}
 		return value.ToLiquid()
 	default:
 		return value
@@ -28,7 +33,7 @@ type dropWrapper struct {
 
 func (w *dropWrapper) Resolve() Value {
 	verifhook.Yield(verifhook.SiteDropResolve)
-	w.Do(func() { w.v = ValueOf(w.d.ToLiquid()) })
+	w.Do(func() { w.v = ValueOf(ToLiquid(w.d)) })
 	return w.v
 }
 
